@@ -72,6 +72,39 @@ Proof.
     unfold Rdiv. rewrite Rmult_assoc, Rinv_l by lra. lra.
 Qed.
 
+(* case analysis over every decision of the translated term, whatever their nesting or negation *)
+Ltac split_decs :=
+  repeat (match goal with
+          | |- context [Req_EM_T ?a ?b] => destruct (Req_EM_T a b)
+          | |- context [Rgt_dec ?a ?b] => destruct (Rgt_dec a b)
+          | |- context [Rge_dec ?a ?b] => destruct (Rge_dec a b)
+          | |- context [Rlt_dec ?a ?b] => destruct (Rlt_dec a b)
+          | |- context [Rle_dec ?a ?b] => destruct (Rle_dec a b)
+          end; cbn [negb andb orb]).
+
+Lemma no_spike_contra v i :
+  v < thr -> v_leak + r * i <= thr ->
+  v - v_leak - r * i <> 0 ->
+  (thr - v_leak - r * i) / (v - v_leak - r * i) > 0 ->
+  -1 * tau * ln ((thr - v_leak - r * i) / (v - v_leak - r * i)) >= 0 -> False.
+Proof.
+  intros H1 H2 NE HL Ht.
+  set (L := (thr - v_leak - r * i) / (v - v_leak - r * i)) in *.
+  destruct (Rlt_dec (v - v_leak - r * i) 0) as [Hd|Hd].
+  - assert (L <= 0).
+    { unfold L. replace ((thr - v_leak - r * i) / (v - v_leak - r * i))
+        with (- ((thr - v_leak - r * i) / (- (v - v_leak - r * i)))) by (field; lra).
+      assert (0 <= (thr - v_leak - r * i) / - (v - v_leak - r * i)); [|lra].
+      apply Rmult_le_pos; [lra|]. left. apply Rinv_0_lt_compat. lra. }
+    lra.
+  - assert (Hd' : 0 < v - v_leak - r * i) by lra.
+    assert (1 < L).
+    { unfold L. apply (Rmult_lt_reg_r (v - v_leak - r * i)); [lra|].
+      unfold Rdiv. rewrite Rmult_assoc, Rinv_l by lra. lra. }
+    assert (0 < ln L) by (rewrite <- ln_1; apply ln_increasing; lra).
+    nra.
+Qed.
+
 Lemma spike_time v i :
   v < thr -> thr < v_leak + r * i ->
   exists t, nxt v i = Some t /\ 0 < t /\ adv v i t = thr /\
@@ -83,10 +116,8 @@ Proof.
   assert (Hd : v - v_leak - r * i < 0) by lra.
   assert (Hln : ln L < 0) by (rewrite <- ln_1; apply ln_increasing; lra).
   exists (-1 * tau * ln L). repeat split.
-  - unfold next_spike. fold L.
-    destruct (Req_EM_T (v - v_leak - r * i) 0) as [E|_]; [lra|].
-    destruct (Rgt_dec L 0) as [_|N]; [|lra].
-    destruct (Rge_dec (-1 * tau * ln L) 0) as [_|N]; [reflexivity|]. exfalso. apply N. nra.
+  - assert (Ht : -1 * tau * ln L >= 0) by nra.
+    unfold next_spike. fold L. split_decs; try reflexivity; try (f_equal; ring); exfalso; try lra; try nra.
   - nra.
   - rewrite advance_canonical, (exp_ratio L HL0). unfold L. field. lra.
   - intros s [Hs0 Hs1]. rewrite advance_canonical.
@@ -103,27 +134,10 @@ Lemma no_spike v i :
   nxt v i = None /\ forall t, 0 <= t -> adv v i t < thr.
 Proof.
   intros H1 H2. split.
-  - unfold next_spike.
-    destruct (Req_EM_T (v - v_leak - r * i) 0) as [E|NE]; [reflexivity|].
-    set (L := (thr - v_leak - r * i) / (v - v_leak - r * i)).
-    destruct (Rgt_dec L 0) as [HL|_]; [|reflexivity].
-    destruct (Rge_dec (-1 * tau * ln L) 0) as [Ht|_]; [|reflexivity].
-    exfalso.
-    destruct (Rlt_dec (v - v_leak - r * i) 0) as [Hd|Hd].
-    + (* denominator negative, numerator >= 0: L <= 0 *)
-      assert (L <= 0).
-      { unfold L. replace ((thr - v_leak - r * i) / (v - v_leak - r * i))
-          with (- ((thr - v_leak - r * i) / (- (v - v_leak - r * i)))) by (field; lra).
-        assert (0 <= (thr - v_leak - r * i) / - (v - v_leak - r * i)); [|lra].
-        apply Rmult_le_pos; [lra|]. left. apply Rinv_0_lt_compat. lra. }
-      lra.
-    + (* denominator positive: L > 1, so ln L > 0 and the time is negative *)
-      assert (Hd' : 0 < v - v_leak - r * i) by lra.
-      assert (1 < L).
-      { unfold L. apply (Rmult_lt_reg_r (v - v_leak - r * i)); [lra|].
-        unfold Rdiv. rewrite Rmult_assoc, Rinv_l by lra. lra. }
-      assert (0 < ln L) by (rewrite <- ln_1; apply ln_increasing; lra).
-      nra.
+  - unfold next_spike. split_decs; try reflexivity; exfalso;
+      match goal with
+      | Ha : _ <> 0, Hb : _ > 0, Hc : _ >= 0 |- _ => exact (no_spike_contra v i H1 H2 Ha Hb Hc)
+      end.
   - intros t Ht. rewrite advance_canonical.
     assert (He : 0 < exp (- t / tau) <= 1).
     { split; [apply exp_pos|]. rewrite <- exp_0. destruct Ht as [Ht|<-].
